@@ -2,9 +2,8 @@
    Invariant about freshly created nodes: started on a node without sequences and nulls (what
    Create makes: empty scalars, mappings of such, the element doSeq appends) or on a fresh empty
    sequence entered by an index / list selector, the matcher never answers "nothing found":
-   it returns at least one node, or fails.  Consequences: doSeq's create-and-retry stops after
-   the element it appended is visited (totality under self_matching, any path, any document). *)
-From KV Require Import Base.Regex Yaml.Match Yaml.MatchProofs Yaml.MatchTotalProofs.
+   it returns at least one node, or fails. *)
+From KV Require Import Base.Regex Yaml.Match Yaml.MatchProofs.
 
 Ltac inv H := inversion H; subst; clear H.
 
@@ -90,12 +89,13 @@ Proof.
   intros E. inv E. destruct h; [apply (H y); auto|discriminate].
 Qed.
 
-Lemma retry_not_nothing visit new_elem : forall f es,
-  not_nothing (retry_loop visit new_elem true f es).
+Lemma retry_not_nothing visit new_elem : forall f app es,
+  not_nothing (retry_loop visit new_elem true app f es).
 Proof.
-  induction f as [|f IH]; intros es x; cbn; [discriminate|].
+  induction f as [|f IH]; intros app es x; cbn; [discriminate|].
   destruct (visit_elems visit 0 es) as [[es1 h1]| | |]; cbn; try discriminate.
-  destruct h1; [apply IH|]. intros E. inv E.
+  destruct h1; [|intros E; inv E].
+  destruct app; cbn; solve [discriminate | apply IH].
 Qed.
 
 Section Create.
@@ -126,8 +126,8 @@ Section Create.
         * destruct n as [t s v0|kvs|es]; try (cbn in W; discriminate W).
           -- rewrite (wfree_not_null _ W). intros x; discriminate.
           -- intros x; discriminate.
-        * intros x. match goal with |- context [retry_loop ?vis ?ne ?cr ?f ?es] =>
-            pose proof (retry_not_nothing vis ne f es) as R end.
+        * intros x. match goal with |- context [retry_loop ?vis ?ne ?cr ?app ?f ?es] =>
+            pose proof (retry_not_nothing vis ne f app es) as R end.
           cbn [is_create] in *.
           match goal with |- (do r <- ?X; _) <> _ => destruct X as [[es1 h1]| | |] eqn:RR end; cbn; try discriminate.
           intros E. inv E. eapply R; eauto.
@@ -158,86 +158,4 @@ Section Create.
                 apply IH, fresh_ok_start.
   Qed.
 
-  Definition self_matching' := self_matching parse enc.
-
-  (* totality with Create, for every path and every document *)
-  Theorem pm_create_total_general : forall fuel path,
-    self_matching' path -> forall n, pmc (S (S fuel)) path n <> Diverge.
-  Proof.
-    intros fuel. induction path as [|p rest IH]; intros Hm n; cbn [pm]; [discriminate|].
-    assert (Hm' : self_matching' rest) by (intros q; intros; eapply Hm; eauto; right; auto).
-    specialize (IH Hm').
-    destruct (classify_pm p) as [i|raw| |name] eqn:Cp.
-    - destruct n as [t s v|kvs|es].
-      + destruct (is_null _); [|discriminate].
-        destruct (Nat.eqb i 0 && is_create (Some k)); [|discriminate].
-        match goal with |- (do r <- ?X; _) <> _ => pose proof (IH (empty_of (path_part_kind (hd "" rest) (leaf_kind (Some k))))) as I; destruct X as [[x h]| | |] end; cbn; try discriminate; auto.
-      + cbn. discriminate.
-      + destruct (Nat.eqb (List.length es) i && is_create (Some k)).
-        * match goal with |- (do r <- ?X; _) <> _ => pose proof (IH (empty_of (path_part_kind (hd "" rest) (leaf_kind (Some k))))) as I; destruct X as [[x h]| | |] end; cbn; try discriminate; auto.
-        * destruct (nth_error es i) as [e|]; [|discriminate].
-          specialize (IH e). destruct (pmc _ rest e) as [[x h]| | |]; cbn; try discriminate; auto.
-    - destruct (split_index_name_value raw) as [[fld v]|] eqn:Sp; [|discriminate].
-      assert (Praw : p = raw).
-      { unfold classify_pm in Cp. destruct (atoi p) as [[neg m]|];
-          [destruct (neg && negb (m =? 0)%N); [|discriminate]|];
-          destruct (is_list_index p); try (inv Cp; reflexivity);
-          destruct (String.eqb p "*"); discriminate. }
-      subst raw.
-      match goal with |- context [retry_loop ?vis ?ne ?cr] =>
-        assert (R : forall es, retry_loop vis ne cr (S (S fuel)) es <> Diverge)
-      end.
-      { cbn [is_create]. intros es0. cbn [retry_loop].
-        match goal with |- context [visit_elems ?vis 0 es0] => set (visit := vis) end.
-        assert (Hv : forall e, visit e <> Diverge).
-        { intros e. subst visit. cbn -[elem_regex]. rewrite elem_regex_text.
-          destruct (parse v) as [r|]; cbn; [|discriminate].
-          destruct (String.eqb fld ""); [destruct (matches r (enc e)); discriminate|].
-          destruct e as [t s v0|kvs|es1]; try discriminate.
-          destruct (find_field fld kvs) as [x|]; [|discriminate].
-          destruct (matches r (enc x)); [apply IH|discriminate]. }
-        assert (Hn : forall x, visit (pm_new_elem fld v) <> Ok (x, [])).
-        { intros x. subst visit. cbn -[elem_regex]. rewrite elem_regex_text.
-          destruct (parse v) as [r|] eqn:Pv; cbn; [|discriminate].
-          assert (Self : matches r (enc (Scalar TNone SPlain v)) = true) by (eapply Hm; eauto; left; auto).
-          unfold pm_new_elem. destruct (String.eqb fld "") eqn:Ef.
-          - rewrite Self. discriminate.
-          - cbn [find_field]. rewrite String.eqb_refl, Self.
-            apply create_not_nothing. left. reflexivity. }
-        pose proof (visit_elems_total visit es0 0 (fun e _ => Hv e)) as T1.
-        destruct (visit_elems visit 0 es0) as [[es1 h1]| | |]; cbn; try discriminate; [|congruence].
-        destruct h1; [|discriminate].
-        pose proof (visit_elems_total visit (es1 ++ [pm_new_elem fld v]) 0 (fun e _ => Hv e)) as T2.
-        destruct (visit_elems visit 0 (es1 ++ [pm_new_elem fld v])) as [[es2 h2]| | |] eqn:V; cbn; try discriminate; [|congruence].
-        destruct h2 as [|x t]; [|discriminate]. exfalso.
-        clear -V Hn. revert V. generalize 0 as j. generalize es2.
-        induction es1 as [|a t IHl]; intros l j V; cbn in V.
-        - destruct (visit (pm_new_elem fld v)) as [[x h]| | |] eqn:Fx; cbn in V; try discriminate.
-          inv V. destruct h; [eapply Hn; eauto|discriminate].
-        - destruct (visit a) as [[a1 h1]| | |]; cbn in V; try discriminate.
-          destruct (visit_elems visit (S j) (t ++ [pm_new_elem fld v])) as [[t1 h2]| | |] eqn:V2; cbn in V; try discriminate.
-          inv V. destruct h2; [eapply IHl; eauto|]. destruct (map (push j) h1); discriminate. }
-      destruct n as [t s v0|kvs|es].
-      + destruct (is_null _); [|discriminate].
-        specialize (R []). destruct (retry_loop _ _ _ _ []) as [[x h]| | |]; cbn; try discriminate; auto.
-      + discriminate.
-      + specialize (R es). destruct (retry_loop _ _ _ _ es) as [[x h]| | |]; cbn; try discriminate; auto.
-    - destruct n as [t s v|kvs|es]; try (destruct (is_null _); discriminate); try discriminate.
-      assert (V : visit_elems (pmc (S (S fuel)) rest) 0 es <> Diverge)
-        by (apply visit_elems_total; intros; apply IH).
-      destruct (visit_elems (pmc (S (S fuel)) rest) 0 es) as [[x h]| | |]; cbn; try discriminate; auto.
-    - destruct (String.eqb name "").
-      + destruct n as [t s v|kvs|es]; try discriminate.
-        destruct (negb (is_null (Scalar t s v)) && String.eqb v ""); [apply IH|].
-        cbn [is_create].
-        match goal with |- (do r <- ?X; _) <> _ => pose proof (IH (empty_of (path_part_kind (hd "" rest) (leaf_kind (Some k))))) as I; destruct X as [[x h]| | |] end; cbn; try discriminate; auto.
-      + destruct n as [t s v|kvs|es].
-        * destruct (is_null _); [|discriminate]. cbn [is_create].
-          match goal with |- (do r <- ?X; _) <> _ => pose proof (IH (quote11 nonstr (empty_of (path_part_kind (hd "" rest) (leaf_kind (Some k)))))) as I; destruct X as [[x h]| | |] end; cbn; try discriminate; auto.
-        * destruct (find_field name kvs) as [x|].
-          -- specialize (IH x). destruct (pmc _ rest x) as [[x1 h]| | |]; cbn; try discriminate; auto.
-          -- cbn [is_create].
-             match goal with |- (do r <- ?X; _) <> _ => pose proof (IH (quote11 nonstr (empty_of (path_part_kind (hd "" rest) (leaf_kind (Some k)))))) as I; destruct X as [[x1 h]| | |] end; cbn; try discriminate; auto.
-        * discriminate.
-  Qed.
 End Create.
